@@ -585,7 +585,27 @@ pub fn run(mode: &str, seed: u64, n: usize, out: &mut dyn Write) {
                 (Some(Err(())), Some(Err(()))) => true,
                 _ => false,
             };
-        writeln!(out, "train {id}.a GEN {} none IMPL {} ## {}", hex(&image), obs_a, flags(&s, rt_a, &g2)).unwrap();
+        // after training exactly the weighted features keep their strings (so that a later `read_user_lexicon`
+        // finds the trained features of a `0,0,0` row): unigram map ids = ids with a weight index, right map
+        // strings = strings used by some bigram weight
+        let prune = guarded(|| {
+            let maps = vibrato::trainer::verif::model_feature_maps(&m0);
+            let mut have: Vec<u32> = maps[0].iter().map(|x| x.1).collect();
+            have.sort_unstable();
+            let want = vibrato::trainer::verif::unigram_weighted_ids(&m0);
+            let mut used: Vec<String> = vibrato::trainer::verif::bigram_weight_table(&m0).into_iter().map(|x| x.1).filter(|x| !x.is_empty()).collect();
+            used.sort();
+            used.dedup();
+            let mut right: Vec<String> = maps[2].iter().map(|x| x.0.clone()).collect();
+            right.sort();
+            have == want && right == used
+        });
+        let prune = match prune {
+            Some(true) => "1",
+            Some(false) => "0",
+            None => "na",
+        };
+        writeln!(out, "train {id}.a GEN {} none IMPL {} ## {} PRUNE={prune}", hex(&image), obs_a, flags(&s, rt_a, &g2)).unwrap();
         if mode != "noreenc" && made % 4 == 0 {
             let r = guarded(|| Model::read_model(&image[..]).is_ok());
             let o = match r {
